@@ -403,6 +403,11 @@ func (s *shard) initGroupCursors(ctx context.Context, querySchema *executor.Quer
 		}
 		c.ctx.tr.Min = querySchema.Options().GetStartTime()
 		c.ctx.tr.Max = querySchema.Options().GetEndTime()
+		if matchPreAgg(querySchema, c.ctx) {
+			// statistics are read instead of rows: the order of the statement plays no role below the series cursors, and
+			// the readers of first / last (FirstLastReader, LocationCursor.ReadMeta) are written for ascending data
+			c.ctx.decs.Ascending = true
+		}
 		if executor.GetEnableFileCursor() && c.querySchema.HasOptimizeAgg() {
 			c.ctx.queryTr.Min = queryMin
 			c.ctx.queryTr.Max = queryMax
